@@ -11,7 +11,8 @@
      4. index_sched: the build assembled from 1-3 on top of Index.build_batch / concat_posts.
 
    Not modelled: negative Python indices (a batch_beg below last_batch_beg_processed never occurs: the begs of
-   a round start at last); which failing future re-raises first (all are ValueError; none fails within the
+   a round start at last); preemption INSIDE add_term (assumed atomic, see section 3); which failing future
+   re-raises first (all are ValueError; none fails within the
    limits); the uint32 cast of term ids; rounds are barriers, so only batches of one round really interleave --
    the schedules below allow MORE interleavings than the thread pool does. *)
 From SA Require Import Base.Prelude Index.Index.
@@ -125,8 +126,12 @@ Definition add_term (d : dict) (t : tok) : dict * N :=
   | None => (d ++ [(t, N.of_nat (length d))], N.of_nat (length d))
   end.
 
-(* the tokens arrive one at a time (add_term is atomic under the GIL): final dictionary, and the id each
-   arriving token was given at the time *)
+(* the tokens arrive one at a time: final dictionary, and the id each arriving token was given at the time.
+   ASSUMPTION: each add_term call is atomic.  term_dict.py 16-22 is a pure-Python check-then-act
+   (`in` test, len(), two stores) with no lock; CPython may switch threads between these bytecodes, and two
+   threads that both read len() before either stores would give two tokens the SAME id.  That interleaving
+   is outside this model: everything proved about dict_of holds for atomic add_term only.  (Not observed on
+   CPython 3.12.1: 30 runs of 4 threads x 20000 fresh tokens at switch interval 1e-6 gave no duplicate id.) *)
 Fixpoint run_adds (d : dict) (arrivals : list tok) : dict * list N :=
   match arrivals with
   | [] => (d, [])
